@@ -77,6 +77,29 @@ def run(chk, F):
     for need in BINARY + ["NOT", "FORALL", "EXISTS"]:
         if not T.has(need):
             raise AnalysisBroken("checkExpression has no case for %s" % need)
+    # the quantifier forms: every kind that binds a variable (derived from the builder), classified by reading
+    from .effects import binder_kinds
+    from .exprlaws import size_table
+    QUANT = {"FORALL": "forall", "EXISTS": "exists", "FORALL_DYNAMIC": "forall", "EXISTS_DYNAMIC": "exists"}
+    NOT_BOOLEAN = {"SUM": "a number", "SUM_DYNAMIC": "a number (or DOUBLE_INV_GUARD, which passes no gate)",
+                   "FOREACH_DYNAMIC": "an update form (INT)", "MITL_FORALL": "a MITL formula (queries only)",
+                   "MITL_EXISTS": "a MITL formula (queries only)"}
+    bk = binder_kinds(F)
+    for k in bk:
+        if k not in QUANT and k not in NOT_BOOLEAN:
+            raise AnalysisBroken("binder kind %s (ExpressionBuilder::%s) is not classified" % (k, bk[k]))
+    sizes, _ = size_table(F)
+    quants = []
+    for k in sorted(bk):
+        if k not in QUANT:
+            continue
+        if not T.has(k):
+            chk.ob("R-CONVEX", "%s|no clause" % k, False,
+                   "checkExpression has no clause for %s: the node keeps the type ExpressionBuilder::%s gave it whatever "
+                   "its body is, so `%s (p : T) (x < 3 || y < 3)` is a plain boolean that every connective accepts" %
+                   (k, bk[k], QUANT[k]), "src/typechecker.cpp:%s" % T.fn["line"])
+            continue
+        quants.append((k, QUANT[k], sizes[k]))
     nrows = 0
 
     def results(kind, cs):
@@ -170,13 +193,13 @@ def run(chk, F):
                         chk.ob(rid, "NOT|%s|%s" % (a, g), a in CLOCK_FREE,
                                "NOT(%s) is typed %s and passes the %s gate: negation of clock constraints is not "
                                "convex" % (a, oc[1], g), "src/typechecker.cpp:%s" % T.fn["line"])
-            for q in ("FORALL", "EXISTS"):
+            for q, qk, ar in quants:
                 nrows += 1
-                for oc in results(q, ["INT", a]):
+                for oc in results(q, ["INT"] * (ar - 1) + [a]):
                     if oc[0] != "accept":
                         continue
                     for g in passes(oc[1]):
-                        if q == "FORALL":
+                        if qk == "forall":
                             ok = a in gate_set[g]
                             if ok and oc[1] in CLOCK_FREE:
                                 ok = a in CLOCK_FREE
